@@ -76,6 +76,12 @@ class IntrospectablePass(object):
         target = self._transformer.resolve_aliases(target)
 
         if node.skip:
+            # Bindings never look at a skipped value; the typelib compiler
+            # still wants its type and its transfer-ownership attribute
+            if isinstance(node.type, ast.Varargs):
+                parent.introspectable = False
+            elif node.transfer is None:
+                node.transfer = ast.PARAM_TRANSFER_NONE
             return
 
         if not node.type.resolved:
